@@ -577,7 +577,22 @@ fn accept_models() -> Vec<AcceptModel> {
                 static_rs: false,
                 static_prefix_limit: None,
                 groups: vec![g("g1", "127.0.2.0/24", 65000, 65000, false, true, None, false), g("g2", "127.0.0.0/8", 65009, 0, false, false, Some(60), false)],
-                confed: Some((64999, vec![65003])),
+                confed: Some((64999, vec![65000, 65003])),
+            },
+            ops: ops(),
+        },
+        // iBGP inside a confederation whose member list names the local member AS too:
+        // a static iBGP neighbour and a dynamic route-reflector-client group, no overlap
+        AcceptModel {
+            cfg: Cfg {
+                name: "ibgp-in-confed",
+                static_admin_down: false,
+                static_remote_as: 65000,
+                static_hold: 90,
+                static_rs: false,
+                static_prefix_limit: None,
+                groups: vec![g("g1", "127.0.2.0/24", 65000, 65000, false, true, None, false)],
+                confed: Some((64999, vec![65000, 65003])),
             },
             ops: ops(),
         },
@@ -857,7 +872,7 @@ pub(crate) fn run(replay: Option<&str>) -> Report {
     }
     let thorough = rep.thorough();
     let depth = if thorough { 6 } else { 5 };
-    rep.rule = format!("(i) explicit-state BFS depth {depth} over connect(passive|active, static|in-dynamic-prefix|other address) / disconnect / enable / disable / delete against the real accept_connection + session tasks on loopback (3 configurations: static only with prefix limit; admin-down static + route-server dynamic group with GR and hold time; overlapping dynamic prefixes + RR client group + confederation); admission verdict, no bytes before refusal, role / hold time / local AS / capabilities / limits of the session as seen in its OPEN, Global.peers and connection slots after every step; (ii) all pairs of capability lists from a {} -element menu (per-family absent / MP / add-path modes incl. invalid 4, conflicting duplicate add-path entries, AS4, extended message, GR flag/family lists, LLGR lists, unknown capability) through encode->decode and PeerCodec::negotiate in both directions, PeerFsm effective send-max, PeerSession::negotiate_gr/llgr (codec/FSM lists and GR/LLGR lists as two independent complete products); non-trivial = distinct canonical state / distinct pair", sides(thorough).len() + gr_sides(thorough).len());
+    rep.rule = format!("(i) explicit-state BFS depth {depth} over connect(passive|active, static|in-dynamic-prefix|other address) / disconnect / enable / disable / delete against the real accept_connection + session tasks on loopback (4 configurations: static only with prefix limit; admin-down static + route-server dynamic group with GR and hold time; overlapping dynamic prefixes + RR client group + confederation; iBGP static neighbour + RR-client group inside a confederation whose member list names the local member AS); admission verdict, no bytes before refusal, role / hold time / local AS / capabilities / limits of the session as seen in its OPEN, Global.peers and connection slots after every step; (ii) all pairs of capability lists from a {} -element menu (per-family absent / MP / add-path modes incl. invalid 4, conflicting duplicate add-path entries, AS4, extended message, GR flag/family lists, LLGR lists, unknown capability) through encode->decode and PeerCodec::negotiate in both directions, PeerFsm effective send-max, PeerSession::negotiate_gr/llgr (codec/FSM lists and GR/LLGR lists as two independent complete products); non-trivial = distinct canonical state / distinct pair", sides(thorough).len() + gr_sides(thorough).len());
     for m in &ms {
         let cfg = BfsCfg { max_depth: depth, max_secs: if thorough { 1200 } else { 20 }, ..Default::default() };
         bfs::bfs(m, &cfg, &mut rep);
